@@ -284,4 +284,7 @@ def write_all(write_if_changed, parse):
     changed = []
     if write_if_changed("ValidateLits.lean", gen_validate_lits(parse)):
         changed.append("ValidateLits.lean")
+    import extract_object  # sibling module (C18): Generated/ObjectProtocol.lean
+    if write_if_changed("ObjectProtocol.lean", extract_object.gen_object_protocol(parse)):
+        changed.append("ObjectProtocol.lean")
     return changed
